@@ -2,6 +2,6 @@ SPECIFICATION Spec
 CONSTANTS MaxSize = 6
           MaxK = 7
           Slack = 2
-INVARIANTS TypeOK DeliveredInsideFile NoSilentShortRead FullReadNoEof EofOnlyAtEnd ClosedFormIsReference ErrLeavesPosition
-PROPERTIES SizeNeverChanges ReadAdvances
+INVARIANTS TypeOK DeliveredInsideFile NoSilentShortRead FullReadNoEof EofOnlyAtEnd ClosedFormIsReference ErrLeavesPosition CtxErrOnlyOwnCall
+PROPERTIES SizeNeverChanges ReadAdvances DeadContextsIrrelevant
 CONSTRAINT Bounded
